@@ -734,6 +734,75 @@ def run_impl(h, scens):
     return parse_records(out, True), rc, err
 
 
+def history_groups(rng, scens, recs, quick):
+    """groups of scenarios to be analysed one after the other in ONE process: the same lattice under ignore / default / its own
+    candidate list in a random order, and two different lattices with the same number of modes alternating"""
+    usable = [k for k, sc in enumerate(scens) if "error" not in recs[str(k)] and not recs[str(k)].get("died") and 2 <= recs[str(k)].get("N", 0) <= 5
+              and recs[str(k)].get("nblocks", 0) > 1]
+    byn = {}
+    for k in usable:
+        byn.setdefault(recs[str(k)]["N"], []).append(k)
+    groups = []
+
+    def variant(sc, mode):
+        v = sc.copy()
+        v.mode = mode
+        return v
+    pick = rng.sample(usable, min(len(usable), 14 if quick else 120))
+    for k in pick:
+        sc = scens[k]
+        g = [sc] + [variant(sc, m) for m in ("ignore", "default") if m != sc.mode]
+        rng.shuffle(g)
+        groups.append(("same lattice, other analysis", g + [g[0]]))
+    for n, ks in sorted(byn.items()):
+        ks = list(ks)
+        rng.shuffle(ks)
+        for a, b in list(zip(ks[0::2], ks[1::2]))[:(5 if quick else 40)]:
+            A, B = scens[a], scens[b]
+            groups.append(("two lattices of the same size", [A, B, variant(A, "ignore"), variant(B, "ignore"), A]))
+    return groups
+
+
+def rec_first_diff(a, b):
+    for key in sorted(set(a) | set(b), key=lambda k: (0 if k in ("nblocks", "blocks", "states") else 1, k)):
+        x, y = a.get(key), b.get(key)
+        if x == y:
+            continue
+        if isinstance(x, dict) and isinstance(y, dict):
+            for k2 in sorted(set(x) | set(y), key=str):
+                if x.get(k2) != y.get(k2):
+                    return "%s[%s] = %s instead of %s" % (key, k2, str(x.get(k2))[:120], str(y.get(k2))[:120])
+        return "%s = %s instead of %s" % (key, str(x)[:120], str(y)[:120])
+    return None
+
+
+def run_histories(h, groups):
+    """-> [(kind, items, position of the first case whose records differ from its own-process run | None, text)]"""
+    inp = ""
+    for g, (kind, items) in enumerate(groups):
+        for p_, sc in enumerate(items):
+            inp += "case own_%d_%d\n%s\nend\n" % (g, p_, sc.text())
+        inp += "seq %d\n" % g + "".join("case seq_%d_%d\n%s\nend\n" % (g, p_, sc.text()) for p_, sc in enumerate(items)) + "endseq\n"
+    rc, out, err = pv.run_harness(h, inp, timeout=900)
+    recs = parse_records(out, True)
+    res = []
+    for g, (kind, items) in enumerate(groups):
+        bad = None
+        for p_ in range(len(items)):
+            own, sq = recs.get("own_%d_%d" % (g, p_)), recs.get("seq_%d_%d" % (g, p_))
+            if own is None or own.get("died") or not own.get("ended"):
+                break           # the case does not run on its own either: not a matter of histories
+            if sq is None or not sq.get("ended"):
+                bad = (p_, "the process died (wait status %s) while analysing this case" % recs.get("seq%d" % g, {}).get("died", "?"))
+                break
+            d = rec_first_diff(sq, own)
+            if d:
+                bad = (p_, d)
+                break
+        res.append((kind, items, bad))
+    return res
+
+
 def run_model(drv, scens, recs, fixed_sz, shiftfix):
     inp = ""
     for k, sc in enumerate(scens):
@@ -964,6 +1033,27 @@ def run(chk):
             detail = d2[0] if d2 else detail
         chk.violation("%s: %s" % (kind, small.canon()), "%s (%d of %d cases fail this way)" % (detail, len(lst), len(scens)),
                       {"harness": "h_c07", "scenario": small.text(), "kind": kind, "detail": detail, "original": sc.text()})
+    # --- histories: several analyses in ONE process must give what each gives in a process of its own (block numbers, inner
+    #     indices, quantum numbers, operator maps: every record)
+    groups = history_groups(chk.rng, scens, recs, quick)
+    hres = run_histories(h, groups)
+    hfail = {}
+    for kind, items, bad in hres:
+        chk.case("history " + " -> ".join(sc.canon() for sc in items), "history: %s | %d analyses in one process" % (kind, len(items)), True)
+        if bad and (kind not in hfail or sum(len(sc.canon()) for sc in items) < sum(len(sc.canon()) for sc in hfail[kind][0])):
+            hfail[kind] = (items, bad, sum(1 for (k2, _, b2) in hres if k2 == kind and b2))
+    for kind, (items, (pos, detail), count) in sorted(hfail.items()):
+        hist = items[:pos + 1]
+        for j in range(pos):        # shrink to two analyses
+            r2 = run_histories(h, [(kind, [items[j], items[pos]])])[0][2]
+            if r2 and r2[0] == 1:
+                hist, detail = [items[j], items[pos]], r2[1]
+                break
+        chk.violation("history-dependence: " + " -> ".join(sc.canon() for sc in hist),
+                      "analysing %s AFTER %s in the same process gives %s (second value: the same analysis in a process of its own); "
+                      "%d of %d histories of kind `%s` fail" % (hist[-1].canon(), " and ".join(sc.canon() for sc in hist[:-1]), detail, count,
+                                                              sum(1 for (k2, _, _) in hres if k2 == kind), kind),
+                      {"harness": "h_c07", "history": [sc.text() for sc in hist], "kind": "history-dependence", "detail": detail})
     if tie_fail:
         sc, diff = tie_fail
         chk.tie_broken("model-vs-implementation", "variant fixed_sz=%d shiftfix=%d; %s: %s" % (fixed_sz, shiftfix, sc.canon(), "; ".join(diff)[:600]))
@@ -977,7 +1067,9 @@ def run(chk):
                 "diagonal operators are conserved (diagonal H; Heisenberg / Ising exchange without hopping on 2-3 sites; decoupled clusters; "
                 "spin-conserving hopping) with 1-3 members of the family -- products of two / three linear forms of both signs, squares, polynomials "
                 "of N, projectors, parity, `balanced` products, linear-in-disguise -- alone or between linear candidates; 14 deterministic minimal ones "
-                "run first. Distinct = distinct scenario text; non-trivial = more than one block, or symmetries ignored, or a failure. Signature = lattice "
+                "run first. Histories: 14-120 lattices analysed under ignore / default / their own candidate list one after the other in ONE process, "
+                "and pairs of different lattices with the same number of modes alternating; every record compared with the analysis in a process "
+                "of its own. Distinct = distinct scenario text; non-trivial = more than one block, or symmetries ignored, or a failure. Signature = lattice "
                 "shape class | conservation class of H | mode and candidate kinds with accepted/rejected.")
 
 
@@ -996,6 +1088,15 @@ def replay(chk, path):
     import json
     r = json.load(open(path))
     rp = r.get("replay", {})
+    if isinstance(rp, dict) and "history" in rp:
+        h = pv.build_harness("h_c07")
+        hist = rp["history"]
+        inp = "case own\n%s\nend\n" % hist[-1] + "seq 0\n" + "".join("case seq%d\n%s\nend\n" % (k, t) for k, t in enumerate(hist)) + "endseq\n"
+        rc, out, err = pv.run_harness(h, inp)
+        recs = parse_records(out, True)
+        print("last analysis of the history vs the same analysis in a process of its own:",
+              rec_first_diff(recs.get("seq%d" % (len(hist) - 1), {}), recs.get("own", {})) or "no difference")
+        return 0
     if isinstance(rp, dict) and "scenario" in rp:
         h = pv.build_harness("h_c07")
         rc, out, err = pv.run_harness(h, "case 0\n%s\nend\n" % rp["scenario"])
